@@ -152,6 +152,7 @@ let parse_file (path : string) : Trace.tev list * stats =
         | ["QVARIANTS"; b] -> push (Trace.TQVariants (rid_of b, []))
         | ["CONNEV"; c; "token"; tok; _] -> push (Trace.TConnToken (conn_of c, tok_of tok))
         | ["TOKTASK"; c; tok; tid] -> push (Trace.TTokenTask (conn_of c, tok_of tok, tid_of tid))
+        | ["THROTTLE"; n] -> push (Trace.TThrottle (nat_of_int (int_of_string n)))
         | ["SYSEV"; "tokenreset"; tids] -> push (Trace.TTokenResetEv (L.map tid_of (L.filter (fun x -> x <> "") (S.split_on_char ',' tids))))
         | ["SYSEV"; "reset"; which; pats] ->
           let pats = L.map chars_of_string (S.split_on_char ',' (unhex pats)) in
@@ -268,6 +269,8 @@ let vkind_name (k : Monitors.vkind) : string * string = match k with
   | Monitors.VSpuriousRefetch -> ("C12", "refetch-without-matching-reset")
   | Monitors.VMissedRefetch -> ("C12", "matching-resource-not-refetched")
   | Monitors.VQueryRequests -> ("C13", "query-requests-not-one-per-variant")
+  | Monitors.VThrottleExceeded -> ("C19", "more-outstanding-refetches-than-reset-throttle")
+  | Monitors.VThrottleStuck -> ("C19", "throttled-refetch-never-sent")
 
 let akind_name (k : AccessMon.akind) : string * string = match k with
   | AccessMon.AUngrantedRead -> ("C04", "data-without-valid-get-grant")
